@@ -17,6 +17,7 @@ THEOREMS = [
     'C13_same_files_as_local', 'C13_cached_like_local',
     'C13_effect_independent_of_preexisting', 'C13_job_input_complete', 'C13_hit_restores_exact', 'C13_miss_is_stored',
     'C13_toolchain_too_large_every_request', 'C13_toolchain_fits_every_request',
+    'C13_rlibs_complete_when_object_code_needed', 'C13_rlib_never_missing', 'C13_rlib_missing_refuted_before_fix',
     'C13_dist_args', 'C13_dist_args_ignore_pp_dep', 'C13_dist_lang_known',
     'C13_dist_args_refuted_before_fix', 'C13_dist_lang_refuted_before_fix',
 ]
@@ -753,6 +754,60 @@ def neighbours_args(case):
     yield c
 
 
+# ------------------------------------------------------------------ leg rustinputs
+
+CTYS = [b'lib', b'rlib', b'staticlib', b'bin', b'dylib', b'cdylib', b'proc-macro']
+NEEDS_OBJ = {b'staticlib', b'bin', b'dylib', b'cdylib', b'proc-macro'}
+
+
+def gen_rustinputs(rng, tier):
+    import itertools
+    out = []
+    cacheable = [b'lib', b'rlib', b'staticlib']
+    vals = [[t] for t in cacheable] + [list(p) for p in itertools.permutations(cacheable, 2)] + \
+           [[b'rlib', b'rlib'], [b'staticlib', b'staticlib'], [b'staticlib', b'rlib', b'lib']]
+    # every sequence of 1..3 options over these values (all orders, comma forms, repetitions, mixes), both spellings
+    for n in (1, 2, 3):
+        for seq in itertools.product(vals, repeat=n):
+            if n == 3 and tier != 'thorough' and sum(len(v) for v in seq) > 4:
+                continue
+            for spell in ((0,) * n, (1,) * n, tuple(i % 2 for i in range(n))):
+                opts = [[sp] + v for sp, v in zip(spell, seq)]
+                out.append([opts, 0, 0])
+                if spell == (0,) * n:
+                    out.append([opts, 0, 1])
+                    out.append([opts, 1, 0])
+                    out.append([opts, 0, 2])
+    for t in CTYS:
+        for u in CTYS:
+            out.append([[[0, t], [0, u]], 0, 1])
+            out.append([[[1, t, u]], 0, 0])
+    out.append([[], 0, 0])
+    for _ in range(3000 if tier == 'thorough' else 300):
+        opts = [[rng.below(2)] + [rng.choice(CTYS if rng.chance(1, 6) else cacheable) for _ in range(rng.range(1, 3))]
+                for _ in range(rng.range(1, 5))]
+        out.append([opts, 1 if rng.chance(1, 5) else 0, rng.below(3)])
+    return out
+
+
+def mon_rustinputs(case, out):
+    opts, sibling, kind = case
+    tys = set(t for o in opts for t in o[1:])
+    vs = []
+    if out == b'no_rustc':
+        return vs
+    if out in (b'panic', b'error', b'other'):
+        vs.append('packaging the inputs failed / produced a damaged rlib: %s' % out.decode())
+    if out == b'missing':
+        vs.append('the dependency rlib is not among the inputs sent to the build server')
+    if tys & NEEDS_OBJ and out not in (b'uncacheable', b'complete'):
+        vs.append('crate types %s need object code, but the dependency rlib sent to the build server is %s (not byte-identical '
+                  'to the file on disk)' % (sorted(t.decode() for t in tys), out.decode()))
+    if out == b'uncacheable' and tys and not (tys - {b'lib', b'rlib', b'staticlib'}):
+        vs.append('a plain rlib/staticlib request was refused as uncacheable')
+    return vs
+
+
 # ------------------------------------------------------------------ legs
 
 def legs(tier):
@@ -796,6 +851,15 @@ def _legs(tier):
             rule='the real dist::ClientToolchains (toolchain cache + weak map on disk) behind the scripted client: every '
                  'sequence of up to 4 requests (need_toolchain yes/no, local compiler ok/unstartable) and client restarts x '
                  '6 limit/size pairs (too small, exactly fitting, ample)'),
+        Leg('rustinputs', gen_rustinputs, monitor=mon_rustinputs,
+            stats=lambda case, out: ['out=' + (out.decode() if isinstance(out, bytes) else '?'), 'nopts=%d' % len(case[0]), 'kind=%d' % case[2]],
+            shrink=lambda case: ([case[0][:i] + case[0][i + 1:], case[1], case[2]] for i in range(len(case[0]))),
+            neighbours=lambda case: ([list(p), case[1], case[2]] for p in __import__('itertools').permutations(case[0])),
+            nontrivial=lambda case, out: len(case[0]) > 1,
+            rule='the real rust parse_arguments + RustInputsPackager::write_inputs: every sequence of 1-3 --crate-type options '
+                 'over all single values, ordered pairs and repeated/mixed comma lists of lib/rlib/staticlib in both spellings, '
+                 'every pair of the seven crate types, PRNG lists; dependency rlib = hand-made ar with rust.metadata.bin, a real '
+                 'rlib built by the installed rustc, or an archive without metadata; with/without a sibling .a'),
         Leg('args', gen_args, monitor=mon_args, stats=stats_args, shrink=shrink_args, neighbours=neighbours_args,
             nontrivial=lambda case, out: out != b'err' and bool(out[1]),
             rule='exhaustive gcc/clang x rewrite_includes_only x 14 languages x suppress x double-dash with all argument '
